@@ -38,6 +38,7 @@ struct VT {
   std::binary_semaphore sem{0};
   int state = 0;  // 0 waiting for start condition, 1 running body, 2 body done (thread-exit cleanup), 3 exited
   bool yielding = false;
+  bool parked = false;  // park(): not chosen by yields / exits while another thread can run; runs when a preemption names it
   uint64_t idle = 0;
   uint32_t lstep = 0;
   uint32_t ncas = 0;
@@ -55,6 +56,7 @@ struct Region {
   const char *hi = nullptr;
   const char *kind = nullptr;
   const char *what = nullptr;
+  bool self = false;  // accesses by the owner itself are reported as well
 };
 
 struct Exec {
@@ -104,19 +106,34 @@ schedulable(int i)
 
 // next schedulable thread other than `me`, round-robin from me+1; prefer non-yielding
 int
-pick_next(int me, bool allow_yielding, int nth = 0)
+pick_next(int me, bool allow_yielding, int nth = 0, int parked_mode = 0)
 {
+  // parked_mode 0: parked threads are skipped; 1: parked threads count like the others (explicit preemption targets);
+  // 2: parked threads only
   int cand[kMaxT];
   int nc = 0;
   for (int k = 1; k <= E->n; k++) {
     const int i = (me + k + E->n) % E->n;
     if (i == me) continue;
     if (!schedulable(i)) continue;
-    if (!allow_yielding && E->t[i]->yielding) continue;
+    if (parked_mode == 0 && E->t[i]->parked) continue;
+    if (parked_mode == 2 && !E->t[i]->parked) continue;
+    if (parked_mode != 2 && !allow_yielding && E->t[i]->yielding && !E->t[i]->parked) continue;
     cand[nc++] = i;
   }
   if (nc == 0) return -1;
   return cand[nth % nc];
+}
+
+// a thread gives up the processor (yield, wait-loop iteration, exit): a thread that can make progress first, then a
+// parked one (it is released), then a waiting one
+int
+pick_after_yield(int me)
+{
+  int n = pick_next(me, false);
+  if (n < 0) n = pick_next(me, true, 0, 2);
+  if (n < 0) n = pick_next(me, true);
+  return n;
 }
 
 void
@@ -125,6 +142,7 @@ switch_to(int n)
   const int me = my;
   E->st.switches++;
   if (E->cfg.trace) fprintf(stderr, "  [switch T%d -> T%d at step %lu]\n", me, n, E->step);
+  E->t[n]->parked = false;
   E->t[n]->sem.release();
   E->t[me]->sem.acquire();
 }
@@ -147,13 +165,13 @@ struct Sentinel {
     if (g_thread_exit) g_thread_exit(me);
     E->t[me]->state = 3;
     start_dependents(me, kAfterExit);
-    int n = pick_next(me, false);
-    if (n < 0) n = pick_next(me, true);
+    int n = pick_after_yield(me);
     my = -1;
     if (n < 0) {
       E->done.release();
     } else {
       if (E->cfg.trace) fprintf(stderr, "  [exit T%d -> T%d at step %lu]\n", me, n, E->step);
+      E->t[n]->parked = false;
       E->t[n]->sem.release();
     }
   }
@@ -182,15 +200,14 @@ sched_decision(Kind k)
   if (!E->preempt.empty()) {
     auto it = E->preempt.find((static_cast<uint64_t>(my) << 32) | ls);
     if (it != E->preempt.end()) {
-      n = pick_next(my, false, it->second);
-      if (n < 0) n = pick_next(my, true, it->second);
+      n = pick_next(my, false, it->second, 1);
+      if (n < 0) n = pick_next(my, true, it->second, 1);
       if (n >= 0) E->st.preempts_taken++;
     }
   }
   bool by_yield = false;
   if (n < 0 && (me.yielding || k == kHint)) {
-    n = pick_next(my, false);
-    if (n < 0) n = pick_next(my, true);
+    n = pick_after_yield(my);
     if (n >= 0) {
       E->st.yields++;
       by_yield = true;
@@ -239,7 +256,7 @@ check_regions(const void *addr)
   const char *a = static_cast<const char *>(addr);
   for (int o = 0; o < kMaxT; o++) {
     const auto &r = E->region[o];
-    if (r.lo != nullptr && o != my && a >= r.lo && a < r.hi) {
+    if (r.lo != nullptr && (o != my || r.self) && a >= r.lo && a < r.hi) {
       report(r.kind, std::string("T") + std::to_string(my) + " accesses " + r.what + " of T" + std::to_string(o));
       return;
     }
@@ -449,12 +466,24 @@ void
 preempt_now(int target)
 {
   if (!active() || E->nopreempt > 0) return;
-  int n = pick_next(my, false, target);
-  if (n < 0) n = pick_next(my, true, target);
+  int n = pick_next(my, false, target, 1);
+  if (n < 0) n = pick_next(my, true, target, 1);
   if (n >= 0) {
     E->st.preempts_taken++;
     switch_to(n);
   }
+}
+
+void
+park()
+{
+  if (!active() || E->nopreempt > 0) return;
+  auto &me = *E->t[my];
+  step_common(kHarness, nullptr);
+  me.parked = true;
+  const int n = pick_after_yield(my);
+  if (n >= 0 && n != my) switch_to(n);
+  me.parked = false;
 }
 
 void
@@ -477,6 +506,14 @@ region_set(int owner, const void *lo, const void *hi, const char *kind, const ch
   r.hi = static_cast<const char *>(hi);
   r.kind = kind;
   r.what = what;
+  r.self = false;
+}
+
+void
+region_include_owner(int owner, bool on)
+{
+  if (E == nullptr || owner < 0 || owner >= kMaxT) return;
+  E->region[owner].self = on;
 }
 
 void
@@ -587,7 +624,11 @@ run(std::vector<ThreadSpec> &threads, const Schedule &s, const Config &c)
     v.probe = threads[i].probe;
     v.sk = threads[i].sk;
     v.dep = threads[i].dep;
-    if (v.sk == kBegin || v.dep < 0 || v.dep >= i) {
+    if (v.sk == kParked) {
+      v.sk = kBegin;
+      v.state = 1;
+      v.parked = true;
+    } else if (v.sk == kBegin || v.dep < 0 || v.dep >= i) {
       v.sk = kBegin;
       v.state = 1;
     }
